@@ -385,7 +385,12 @@ func c09WriteFaults(c C09Case, op c09Op, name string, record bool, st *c09Stats)
 		}
 		var err error
 		desc := fmt.Sprintf("%s, writer failing after %d of %d bytes", name, k, len(full.Buf))
-		if pv, stack := pbt.Try(func() { err = op.write(sink) }); pv != nil {
+		var w io.Writer = sink
+		if k%2 == 1 {
+			w = iox.ByteSink{Sink: sink} // a writer that also has WriteByte
+			desc += " (writer with WriteByte)"
+		}
+		if pv, stack := pbt.Try(func() { err = op.write(w) }); pv != nil {
 			return pbt.V(pbt.PanicKey("c09.writefault."+name, stack), "no panic", "%s panicked: %v\n%s", desc, pv, stack)
 		}
 		if err == nil {
